@@ -152,3 +152,11 @@ func (r *RibTable) VerifDumpNodes() []VerifRibNode {
 	walk(&r.RibEntry, enc.Name{})
 	return out
 }
+
+// VerifResetGlobalRib empties the process-global Rib in place and returns a pointer to it, so
+// that a check can drive the very table used by fw/mgmt and fw/face (face.Table.Remove calls
+// Rib.CleanUpFace on the global).
+func VerifResetGlobalRib() *RibTable {
+	Rib = RibTable{RibEntry: RibEntry{children: map[*RibEntry]bool{}}}
+	return &Rib
+}
